@@ -20,8 +20,9 @@ CHECKS = [
         "emission contracts for constants, members, properties and functions.",
         "Trusted: givc, ElementTree, _parse_type and _parse_generic_attribs by assumed contract, XML layer (C20). Only parameter "
         "elements have both directions under contract; for <array>/<type> the writer side is under contract (_write_type, with the "
-        "reader's zero-terminated default rule as specification); return values, records, classes, documents as a whole and the "
-        "shipped GIR files are not yet covered.", "DESIGN.md section 4 C07"),
+        "reader's zero-terminated default rule as specification) and the reader of the generic attributes and documentation children "
+        "(_parse_generic_attribs: every <doc*> child is read whenever present); return values, records, classes, documents as a "
+        "whole and the shipped GIR files are not yet covered.", "DESIGN.md section 4 C07"),
     chk("C09", "The section-offset arithmetic of the real GIObjectInfo accessors (get_property/method/vfunc/constant, signal offset, "
         "field offset walk over embedded callbacks) is proved equal to the ObjectBlob layout of gitypelib-internal.h written as a "
         "table; each accessor creates its info at section_start + n*size with the right info type, and rejects non-object infos.",
@@ -56,8 +57,9 @@ CHECKS = [
     chk("C12", "Contracts on the real GDumpParser functions: every reported property becomes one Property whose readable/writable/"
         "construct/construct-only flags equal the reported flag bits (for every flag word), with the reported name and default; "
         "class/interface structures are linked to their type in both directions; instance structures give ctype and read-only "
-        "fields; plus the emission of property flags by the GIR writer.",
-        "Trusted: givc, ElementTree (findall), Type.create_from_gtype_name, Node.create_type. Signals, parent-chain fallback, boxed "
+        "fields; interface / prerequisite lists are filtered on a copy (_resolve_and_filter_type_list: the given list is never "
+        "changed, every entry is resolved once and in order); plus the emission of property flags by the GIR writer.",
+        "Trusted: givc, ElementTree (findall), Node.create_type, Transformer.resolve_type, list.remove (coarse). Signals, parent-chain fallback, boxed "
         "pairing, virtual methods and error quarks are not yet under contract; gdump.c is out of scope.", "DESIGN.md section 4 C12"),
     chk("C03", "Contracts on the real identifier-level annotation functions: generic metadata (doc, Since/Deprecated/Stability, skip, "
         "foreign, constructor only on functions, method, set/get-property), block-name selection, and rename-to as a mutually "
@@ -106,7 +108,10 @@ CHECKS = [
         "exactly once on every exit (suppressed, printed, SystemExit for fatal). Parser half, annotation level: "
         "_parse_annotations / _parse_annotation / the option parsers / _parse_fields raise nothing on any text, a malformed "
         "annotation list yields success=False with nothing returned and at least one diagnostic, and the annotations parsed so far "
-        "(the object passed in) are never modified - a failing continuation line is ignored rather than half-applied.",
+        "(the object passed in) are never modified - a failing continuation line is ignored rather than half-applied; "
+        "parse_comment_blocks raises nothing whatever parse_comment_block does (any Exception becomes one counted error, the other "
+        "comments are still parsed, each exactly once and in order). BOUNDED stand-in (not a proof): the line-splitting expression "
+        "of parse_comment_block, extracted from the source on every run, against the rule 'lines end at LF, CR LF or CR only'.",
         "Trusted: givc, schema, MessageLogger.get singleton, Position.format, str.split/strip/lower/isspace as uninterpreted "
         "functions. The line state machine of parse_comment_block, positions/carets and the warn_fatal gate are not under contract; "
         "list mode of _parse_annotations (parse_options=False) is excluded by precondition.", "DESIGN.md section 4 C11"),
@@ -145,7 +150,8 @@ CHECKS = [
         "prefix-stripped symbol, no further role once one was set up; call-discipline clauses), _is_constructor (named like a "
         "constructor or annotated; returns a constructible type; belongs to the type whose prefix it carries, of this namespace; "
         "a boxed constructor returns exactly its type), _get_constructor_class, _guess_constructor_by_name, _pair_static_method "
-        "(class: moved into the class; other types: a copy plus moved-to on the original), Namespace.float. "
+        "(class: moved into the class; other types: a copy plus moved-to on the original), _get_constructor_name (the remainder after "
+        "the owning type's prefix), Namespace.float. "
         "Assumed: _set_up_constructor / _setup_method (coarse frames), Function.clone, is_type_meta_function, _get_uscored_prefix. "
         "Not under contract: tag-namespace typedef/struct handling, the parent-chain walk inside _is_constructor (invariant: "
         "diagnostics only), to_underscores, the exactly-once statement over a whole scan (a whole-history property), get-type "
